@@ -135,6 +135,7 @@ type Run struct {
 
 	hist       *history // C07
 	rawUploads []string
+	faultSeen  bool // a failing injected disk fault has hit some operation of this run
 	left       int // clients still running
 }
 
@@ -173,7 +174,7 @@ func Execute(p *Plan, scratch string) (res *Result) {
 	for _, c := range p.Clients {
 		for _, op := range c {
 			if op.Body != nil {
-				budget += int64(op.Body.Size) * 4
+				budget += int64(op.Body.Size) * 40
 			}
 		}
 	}
@@ -388,6 +389,7 @@ func (r *Run) installHooks() {
 						r.stats.Faults["disk-eio"]++
 						r.stats.Faults["disk-eio@"+strings.TrimPrefix(op, "f.")]++
 						me.faulted = true
+						r.faultSeen = true
 						return syscall.EIO
 					}
 				}
@@ -402,6 +404,7 @@ func (r *Run) installHooks() {
 					if ft.Kind == "enospc" && ft.At == me.fsCall {
 						r.stats.Faults["disk-enospc"]++
 						me.faulted = true
+						r.faultSeen = true
 						keep := ft.N
 						if keep >= len(p) {
 							keep = len(p) - 1
